@@ -189,7 +189,12 @@ class Interp:
             if not isinstance(it, (list, tuple, range, str)):
                 self.unsupported(s, "loop over a non-literal collection")
             broke = False
-            for x in list(it):
+            live = isinstance(it, list)  # a list mutated in the body is seen by the loop (Python semantics)
+            seq = it if live else list(it)
+            k = 0
+            while k < len(seq):
+                x = seq[k]
+                k += 1
                 self.assign(s.target, x, L)
                 try:
                     self.block(s.body, L)
@@ -302,6 +307,8 @@ class Interp:
                 return self.env[n.id]
             if n.id in ("True", "False", "None"):
                 return {"True": True, "False": False, "None": None}[n.id]
+            if n.id in ("str", "int"):
+                return {"str": str, "int": int}[n.id]
             self.unsupported(n, "free name without model")
         if isinstance(n, ast.Tuple):
             return tuple(self.ev(e, L) for e in n.elts)
@@ -487,6 +494,8 @@ class Interp:
             return ("__bound__", obj, attr)
         if isinstance(obj, list) and attr in _LIST_METHODS:
             return ("__bound__", obj, attr)
+        if isinstance(obj, set) and attr in _SET_METHODS:
+            return ("__bound__", obj, attr)
         if isinstance(obj, str) and attr in _STR_METHODS:
             return ("__bound__", obj, attr)
         if self.attr_hook is not None:
@@ -537,7 +546,7 @@ class Interp:
         if isinstance(f, ast.Attribute):
             obj = self.ev(f.value, L)
             a, kw = args()
-            m = self.getattr(obj, f.attr, f) if not isinstance(obj, (dict, list, str)) \
+            m = self.getattr(obj, f.attr, f) if not isinstance(obj, (dict, list, str, set)) \
                 else ("__bound__", obj, f.attr)
             if isinstance(m, tuple) and m and m[0] == "__bound__":
                 _, o, attr = m
@@ -571,6 +580,13 @@ class Interp:
                             return getattr(o, attr)(*a)
                         except (IndexError, ValueError):
                             raise Raised("IndexError" if attr == "pop" else "ValueError", n)
+                if isinstance(o, set):
+                    if attr not in _SET_METHODS:
+                        self.unsupported(n, f"set method {attr}")
+                    try:
+                        return getattr(o, attr)(*a)
+                    except KeyError:
+                        raise Raised("KeyError", n)
                 if isinstance(o, str):
                     if attr not in _STR_METHODS:
                         self.unsupported(n, f"str method {attr}")
@@ -600,6 +616,8 @@ class Interp:
 
 _DICT_METHODS = ("items", "keys", "values", "get", "update", "pop", "copy", "setdefault", "clear")
 _LIST_METHODS = ("append", "extend", "index", "count", "insert", "clear", "pop", "reverse", "copy", "remove")
+_SET_METHODS = ("add", "update", "discard", "remove", "copy", "union", "intersection", "difference", "pop", "clear",
+                "difference_update", "issubset")
 _STR_METHODS = ("count", "startswith", "endswith", "isdigit", "isnumeric", "join", "split",
                 "replace", "strip", "lstrip", "rstrip", "lower", "upper", "index", "find")
 
